@@ -1,2 +1,16 @@
 import QlibcModel.Props.C16
-#print axioms Qlibc.Props.C16.urlCharTbl_length
+#print axioms Qlibc.Props.C16.table_lengths
+#print axioms Qlibc.Props.C16.url_format
+#print axioms Qlibc.Props.C16.url_safe_set
+#print axioms Qlibc.Props.C16.url_roundtrip
+#print axioms Qlibc.Props.C16.url_decode_cases
+#print axioms Qlibc.Props.C16.url_decode_eq_pure
+#print axioms Qlibc.Props.C16.url_decode_plus
+#print axioms Qlibc.Props.C16.url_decode_escape
+#print axioms Qlibc.Props.C16.b64_format
+#print axioms Qlibc.Props.C16.b64_alphabet
+#print axioms Qlibc.Props.C16.b64_roundtrip
+#print axioms Qlibc.Props.C16.hex_format
+#print axioms Qlibc.Props.C16.hex_roundtrip
+#print axioms Qlibc.Props.C16.hex_decode_cases
+#print axioms Qlibc.Props.C16.query_roundtrip
